@@ -900,6 +900,8 @@ class SimulationObject(TreeClass, ABC):
                 return True
             if o_start <= s_end <= o_end:
                 return True
+            if s_start <= o_start and o_end <= s_end:
+                return True
         return False
 
     def __eq__(
